@@ -46,3 +46,47 @@ def slot_side(slot: str) -> str | None:
     if slot == "constant":
         return "either"
     return None
+
+
+MIRROR_PAIRS = {"<": ">", ">": "<", "<=": ">=", ">=": "<=", "≤": "≥", "≥": "≤"}
+SYMMETRIC = {"=", "==", "!=", "≠"}
+
+
+def mirrored_stores(repo, f: Func) -> tuple[set[int], list[str]]:
+    """Stores that sit in a *mirroring branch*: an `if` whose test says "left operand constant, right operand not" and whose body takes the comparator from a
+    table lookup `T.get(op, op)` with T a module constant that maps every asymmetric comparator to its mirror image and nothing else to something different.
+    In such a branch the right operand legitimately feeds the first slot and the left one the constant.  Returns (ids of the Assign nodes, problems found)."""
+    from .core import NotConstant, module_const
+
+    ids: set[int] = set()
+    problems: list[str] = []
+    for n in walk_local(f.node):
+        if not isinstance(n, ast.If):
+            continue
+        t = norm(n.test)
+        # canonical: isinstance(L, int) and not isinstance(R, int)   (L/R any names; checked by the callers' side tables)
+        if not (isinstance(n.test, ast.BoolOp) and isinstance(n.test.op, ast.And) and "isinstance(" in t and "not isinstance(" in t) and "is not None" not in t:
+            continue
+        mirror_ok = False
+        for st in n.body:
+            for c in ast.walk(st):
+                if isinstance(c, ast.Call) and call_name(c) == "get" and isinstance(c.func, ast.Attribute) and isinstance(c.func.value, ast.Name) and len(c.args) == 2:
+                    tname = c.func.value.id
+                    try:
+                        table = module_const(repo, f.module, tname)
+                    except (NotConstant, KeyError, Exception):
+                        continue
+                    if not isinstance(table, dict):
+                        continue
+                    wrong = {k: v for k, v in table.items() if (k in MIRROR_PAIRS and v != MIRROR_PAIRS[k]) or (k not in MIRROR_PAIRS and v != k)}
+                    missing = [k for k in ("<", ">", "<=", ">=") if k not in table]
+                    if wrong or missing:
+                        problems.append(f"{tname}: wrong entries {wrong}, missing {missing}")
+                    elif norm(c.args[0]) == norm(c.args[1]):
+                        mirror_ok = True
+        if mirror_ok:
+            for st in n.body:
+                for x in ast.walk(st):
+                    if isinstance(x, ast.Assign):
+                        ids.add(id(x))
+    return ids, problems
